@@ -332,6 +332,7 @@ def r2(ctx):
         refl = all(pr({"as_": a, "ae": b, "cs": a, "ce": b}) for a in range(B) for b in range(a, B))
         ctx.ob("R2", refl, "criterion %s is reflexive (a feature merges with itself) for start <= end" % name, func=f,
                sig="%s reflexive" % name if refl else "%s not reflexive" % name, nontrivial=False)
+    thr_preds = {}
     for name in ("overlap_end_threshold", "overlap_start_threshold", "overlap_any_threshold"):
         f = require_func(ctx, "merge_criteria." + name)
         inner = [g for lst in f.nested.values() for g in lst]
@@ -340,12 +341,32 @@ def r2(ctx):
         pr = py_pred(r[0].value, resolver)
         refl = all(pr({"as_": a, "ae": b, "cs": a, "ce": b, "th": th}) for a in range(B) for b in range(a, B) for th in range(0, 4))
         ctx.ob("R2", refl, "criterion %s(threshold >= 0) is reflexive" % name, func=inner[0], sig="%s reflexive" % name if refl else "%s not reflexive" % name)
+        thr_preds[name] = pr
+        mono = all((not pr(dict(zip(names, v), th=th))) or pr(dict(zip(names, v), th=th + 1)) for v in itertools.product(range(B), repeat=4)
+                   if v[0] <= v[1] and v[2] <= v[3] for th in range(0, 3))
+        ctx.ob("R2", mono, "criterion %s is monotone in its threshold (a larger tolerance accepts at least as much)" % name, func=inner[0],
+               sig="%s monotone in threshold" % name if mono else "%s not monotone in threshold" % name, nontrivial=False)
         base = {"overlap_end_threshold": "overlap_end_inclusive", "overlap_start_threshold": None, "overlap_any_threshold": None}[name]
         if base:
             sp = specs[base]
             same = all(bool(pr(dict(zip(names, v), th=1))) == bool(sp(dict(zip(names, v)))) for v in itertools.product(range(B), repeat=4)
                        if v[0] <= v[1] and v[2] <= v[3])
             ctx.ob("R2", same, "%s(1) coincides with %s" % (name, base), func=inner[0], sig="%s(1) ≡ %s" % (name, base) if same else "%s(1) differs from %s" % (name, base), nontrivial=False)
+    r2_threshold_relations(ctx, thr_preds, specs, names, B)
+
+
+def r2_threshold_relations(ctx, thr_preds, specs, names, B):
+    import itertools as it_
+    grid = [dict(zip(names, v)) for v in it_.product(range(B), repeat=4) if v[0] <= v[1] and v[2] <= v[3]]
+    f = ctx.proj.func("merge_criteria.overlap_any_threshold")
+    if {"overlap_start_threshold", "overlap_end_threshold", "overlap_any_threshold"} <= set(thr_preds):
+        s_, e_, a_ = thr_preds["overlap_start_threshold"], thr_preds["overlap_end_threshold"], thr_preds["overlap_any_threshold"]
+        ok = all(bool(a_(dict(g, th=t))) == bool(s_(dict(g, th=t)) or e_(dict(g, th=t))) for g in grid for t in range(0, 4))
+        ctx.ob("R2", ok, "overlap_any_threshold(t) accepts exactly what overlap_start_threshold(t) or overlap_end_threshold(t) accepts", func=f,
+               sig="any_threshold ≡ start_threshold or end_threshold" if ok else "any_threshold differs from start_threshold or end_threshold")
+        ok = all(bool(s_(dict(g, th=0))) == bool(specs["overlap_start_inclusive"](g)) for g in grid)
+        ctx.ob("R2", ok, "overlap_start_threshold(0) coincides with overlap_start_inclusive", func=ctx.proj.func("merge_criteria.overlap_start_threshold"),
+               sig="start_threshold(0) ≡ start_inclusive" if ok else "start_threshold(0) differs from start_inclusive", nontrivial=False)
 
 
 def r6(ctx):
